@@ -121,7 +121,15 @@ impl TxWal {
         let file = OpenOptions::new().create(true).append(true).open(&path)?;
 
         // Get current file size
-        let current_size = file.metadata().map(|m| m.len()).unwrap_or(0);
+        let mut current_size = file.metadata().map(|m| m.len()).unwrap_or(0);
+
+        // Drop a torn final frame left by a crash so new records stay readable.
+        let valid_len = crate::raft_wal::complete_frames_len(&path)?;
+        if valid_len < current_size {
+            file.set_len(valid_len)?;
+            file.sync_all()?;
+            current_size = valid_len;
+        }
 
         let entry_count = Self::count_entries(&path)?;
 
